@@ -54,6 +54,22 @@ pub fn drive_c12(args: &[String]) {
         let kc = kcheck(ng, thorough).min(if ng >= 3 { 3 } else { 4 });
         sink.emit(lowindex_event(&format!("orbifold group of {}", s), ng, &fg.relators, kc, kc));
     }
+    // deep runs: orbifold groups with >= 3 generators of larger 2-D symbols enumerated to index 6 (thorough 7): every table
+    // must still be a valid action (structural clauses; the class count is confirmed only up to kcheck)
+    let deep_k = arg_usize(args, "--deep-k", 6);
+    let deep_n = arg_usize(args, "--deep", 40);
+    let mut pool: Vec<PartialDSym> = generated_2d(6).into_iter().filter(|s| s.size() >= 4).collect();
+    pool.extend(sets_with_branching(2, 4, &[2, 3, 4], 3, &mut rng));
+    pool.shuffle(&mut rng);
+    let mut done = 0;
+    for s in pool {
+        if done >= deep_n { break; }
+        let fg = match catch(|| fundamental_group(&s)) { Ok(f) => f, Err(_) => continue };
+        let ng = fg.nr_generators();
+        if ng < 3 || ng > 5 || fg.relators.iter().any(|w| w.len() > 40) { continue; }
+        done += 1;
+        sink.emit(lowindex_event(&format!("deep: orbifold group of {}", s), ng, &fg.relators, deep_k, if ng == 3 { 3 } else { 2 }));
+    }
     sink.flush();
     println!("{}", json!({"events": sink.n}));
 }
